@@ -391,6 +391,15 @@ def _centring(e, mean_x, mean_y):
     if num[0] == 'b' and num[1] == 'Sub':
         pt = product_terms(num[2])
         corr = num[3]
+        if pt is None and num[2][0] == 'red' and num[2][1] in ('sum', 'acc'):
+            for x_ in num[2][2]:
+                y_ = x_
+                if y_[0] == 'b' and y_[1] == 'Add' and ('sym', 'acc') in (y_[2], y_[3]):
+                    y_ = y_[3] if y_[2] == ('sym', 'acc') else y_[2]
+                if y_[0] == 'b' and y_[1] == 'Mul' and {y_[2], y_[3]} == {('sym', 'X'), ('sym', 'Y')}:
+                    return 'bad', 'raw second moments: sum x*y - (sum x)(sum y)/n on unshifted data. The two terms are each of the order n*mean(x)*mean(y) ' \
+                                  'and their difference of the order n*cov: with the mean far larger than the spread every significant digit cancels ' \
+                                  '(the textbook unstable formula; the data must be shifted or centred first)'
         if pt is not None and corr[0] == 'b' and corr[1] == 'Div' and corr[2][0] == 'b' and corr[2][1] == 'Mul':
             sa, sb = corr[2][2], corr[2][3]
 
